@@ -614,7 +614,7 @@ func gen(r *Rng, tier string, emit Emit) {
 				enc = altEnc
 			}
 			kinds := [][]int{{1}, {2}, {3}, {3}, {1, 2, 3}}[rr.Intn(5)]
-			o := uefigen.COpts{Depth: it % 4, Kinds: kinds, Enc: enc, DataOff: rr.Chance(1, 3), PlainNest: true}
+			o := uefigen.COpts{Depth: it % 4, Kinds: kinds, Enc: enc, DataOff: rr.Chance(1, 3), PlainNest: true, Opaque: true}
 			reg, targets, err := uefigen.GenCompRegion(rr.Fork(7), o)
 			if err != nil {
 				continue
